@@ -119,6 +119,24 @@ theorem split_then_project_keeps_parent :
     (r.2.2.map (fun p => sharesB p r.2.1)) = [false, false] ∧
     (project r.1 (r.2.2.headD parent0.2) 2 [rz, M3.one]).1.get 0 = r.1.get 0 := by decide +kernel
 
+/-! ### why `scale()` must rebind: self-aliased objects -/
+
+/-- an object whose matrix list holds the same array in two slots: `reduce_to_ids([0, 0, 1])` -/
+def selfAliased : Heap × Obj := reduce parent0.1 parent0.2 [0, 0, 1]
+
+/-- the rebinding `scale()` of the code and an in-place `*=` on the matrices agree on objects without
+repeated arrays, but differ on a self-aliased one: the shared array is scaled once per slot
+(position (1,2,3) becomes (4,8,12) instead of (2,4,6)), so the matrices disagree with a positions
+array cached before -/
+theorem scale_inplace_differs_on_self_alias :
+    (selfAliased.2.se3? = some [0, 0, 1]) ∧
+    se3Vals (scale selfAliased.1 selfAliased.2 2).1 (scale selfAliased.1 selfAliased.2 2).2
+      = [⟨rz, ⟨2, 4, 6⟩⟩, ⟨rz, ⟨2, 4, 6⟩⟩, ⟨M3.one, ⟨8, 10, 12⟩⟩] ∧
+    se3Vals (scaleInplace selfAliased.1 selfAliased.2 2).1 (scaleInplace selfAliased.1 selfAliased.2 2).2
+      = [⟨rz, ⟨4, 8, 12⟩⟩, ⟨rz, ⟨4, 8, 12⟩⟩, ⟨M3.one, ⟨8, 10, 12⟩⟩] ∧
+    se3Vals (scaleInplace parent0.1 parent0.2 2).1 (scaleInplace parent0.1 parent0.2 2).2
+      = se3Vals (scale parent0.1 parent0.2 2).1 (scale parent0.1 parent0.2 2).2 := by decide +kernel
+
 /-! ### non-vacuity -/
 
 example : Wf parent0.1 parent0.2 := by
